@@ -48,7 +48,7 @@ func (fv *FuncVerifier) constTerm(val constant.Value, t types.Type) (Term, bool)
 
 func (fv *FuncVerifier) floatConst(lit string) Term {
 	s := fv.u.opaque("Float")
-	n := "flt_" + sanitize(lit)
+	n := "flt_" + sanitize(lit) + fmt.Sprintf("_%x", lit)
 	fv.u.declare("const:"+n, fmt.Sprintf("(declare-const %s %s)", n, s.Name))
 	return Term{n, s}
 }
@@ -61,7 +61,9 @@ func (fv *FuncVerifier) strConst(v string) Term {
 	if v == "" {
 		return fv.u.zero(s)
 	}
-	n := "str_" + sanitize(v) + fmt.Sprintf("_%d", len(v))
+	// the name must be injective in the literal: two literals that differ only in punctuation
+	// sanitize to the same text, so the exact bytes are appended in hex
+	n := "str_" + sanitize(v) + fmt.Sprintf("_%d_%x", len(v), v)
 	if !fv.u.declared["const:"+n] {
 		fv.u.declare("const:"+n, fmt.Sprintf("(declare-const %s %s)", n, s.Name))
 		// distinct from other literals
